@@ -80,6 +80,8 @@ bool ops_core(World &w, const Op &o);
 bool ops_aux(World &w, const Op &o);
 bool ops_repl(World &w, const Op &o);
 bool ops_diff(World &w, const Op &o);
+bool ops_shm(World &w, const Op &o);
+void shm_after_destroy(World &w, void *addr, size_t len);
 void battery(World &w, int ri, uint64_t sel, int nqueries);
 void destroy_replica(World &w, int ri);
 
